@@ -992,3 +992,41 @@ class Prover:
                 if ok:
                     return True
         return False
+
+
+def arg_pop_sites(f, cr, b, args=None, pop_suffixes=("Vec::<T, A>::pop", "ReadCacheLookup::pop")):
+    """for the call ending block b: per argument (or per element, when an argument is an array literal) the block of the pop
+    call whose result (through unwrap / Some.0 / .0 / references and casts) it is, or None.  Identifies WHICH pop feeds
+    WHICH argument without looking at any name."""
+    ev = Eval(f, cr)
+    t = f.term(b)
+
+    def unval(e):
+        while e and e[0] in ("val", "cast"):
+            e = e[2]
+        return e
+
+    def site(e):
+        e = unval(e)
+        if e[0] == "call" and e[1].endswith("::unwrap") and e[2]:
+            return site(e[2][0])
+        if e[0] == "call" and e[1].endswith("::expect") and e[2]:
+            return site(e[2][0])
+        if e[0] == "fld":
+            inner = unval(e[1])
+            if inner[0] == "dc":
+                return site(inner[1])
+            return site(inner)
+        if e[0] == "call" and e[1].endswith(tuple(pop_suffixes)) and len(e) > 3:
+            return e[3][0]
+        return None
+    out = []
+    for i, a in enumerate(t["args"]):
+        if args is not None and i not in args:
+            continue
+        e = unval(ev.operand(a, (b, "T")))
+        if e[0] == "agg" and e[1] == "array":
+            out.append([site(x) for x in e[2]])
+        else:
+            out.append(site(e))
+    return out
